@@ -223,11 +223,14 @@ def main(tier, seed):
     plans = [dict(dirs=DIRS, max_cmds=4)] if tier == "quick" else [dict(dirs=DIRS, max_cmds=5), dict(dirs=DIRS_X, max_cmds=4, rich=True)]
     tot = {"states": 0, "transitions": 0}
     runs = []
+    plans.append(dict(dirs=["A", "E"], max_cmds=3, ignores=False))   # E: a nested root without any entry below it
     plans += [dict(dirs=DIRS, max_cmds=3 if tier == "quick" else 4, spell=sp) for sp in ("slash", "dot", "symlink")]   # root spelled 'dir/', '.'
     for pl in plans:
         meta = dict(alpha="c08", oracles=["c08"], cmds=0, observe=True, max_cmds=pl["max_cmds"], rich=pl.get("rich", False))
         if pl.get("spell"):
             meta["spell"] = pl["spell"]
+        if "ignores" in pl:
+            meta["ignores"] = pl["ignores"]
         r = engine.bfs(eng, e1.expand, [(base_tree(pl["dirs"]), meta, "tree:" + ",".join(pl["dirs"]))],
                        max_depth=pl["max_cmds"], label=ops.label, state_cap=300000)
         runs.append(dict(dirs=pl["dirs"], max_cmds=pl["max_cmds"], **r))
